@@ -85,6 +85,19 @@ func checkC16(r *run, c *AudioCase) (CaseInfo, error) {
 		if !spareIntact() {
 			return ci, failf("%s.Payload(mtu %d, %d bytes) wrote into the spare capacity behind its input", c.Codec, c.MTU, c.Len)
 		}
+		// every fragment is the caller's, capacity included: appending to one must not reach another
+		for _, f := range frags {
+			for i, full := len(f), f[:cap(f)]; i < len(full); i++ {
+				full[i] ^= 0xFF
+			}
+		}
+		cat = cat[:0]
+		for _, f := range frags {
+			cat = append(cat, f...)
+		}
+		if !bytes.Equal(cat, orig) {
+			return ci, failf("%s.Payload(mtu %d, %d bytes): writing into the spare capacity of the returned fragments (what append does) changed other fragments", c.Codec, c.MTU, c.Len)
+		}
 		for k, l := range c.More {
 			in2 := expand(c.Seed+uint64(k)+1, c.Pattern, l)
 			orig2 := clone(in2)
@@ -248,7 +261,7 @@ func genAudioCase(t *rapid.T) *AudioCase {
 	return c
 }
 
-const ruleC16 = "exhaustive rectangle: every (length 0-64, MTU 1-70, fill pattern in {random,0x00,0xFF,ramp}) for G711 and G722, Opus and OpusPacket for every length 0-64; random: length 0-10000 biased to k*MTU+{-1,0,1}, MTU 1-65535 biased to 1,2,3,160,1200. Oracle: concatenation = input, every fragment but the last exactly MTU bytes, last 1..MTU, fragment count = ceil(len/MTU) (one empty fragment for empty input); Opus: one equal non-aliasing fragment (scribble both ways); OpusPacket: payload unchanged (also for further payloads decoded by the same value), nil/empty rejected, head/tail always true. Non-trivial = >=2 fragments, empty input or len=MTU (G711/G722), non-empty Opus input, every OpusPacket case; distinct = FNV-64 of the JSON case"
+const ruleC16 = "exhaustive rectangle: every (length 0-64, MTU 1-70, fill pattern in {random,0x00,0xFF,ramp}) for G711 and G722, Opus and OpusPacket for every length 0-64; random: length 0-10000 biased to k*MTU+{-1,0,1}, MTU 1-65535 biased to 1,2,3,160,1200. Oracle: concatenation = input, every fragment but the last exactly MTU bytes, last 1..MTU, fragment count = ceil(len/MTU) (one empty fragment for empty input), fragments still intact after the spare capacity of each was overwritten; Opus: one equal non-aliasing fragment (scribble both ways); OpusPacket: payload unchanged (also for further payloads decoded by the same value), nil/empty rejected, head/tail always true. Non-trivial = >=2 fragments, empty input or len=MTU (G711/G722), non-empty Opus input, every OpusPacket case; distinct = FNV-64 of the JSON case"
 
 func TestC16(t *testing.T) {
 	r := begin(t, "C16", "exploration", ruleC16)
